@@ -30,6 +30,8 @@ T=[
  ('C01','send statement checks','Send emitted `c <- v` unchecked: sending on a non-channel or receive-only channel, or a value not assignable to the element type (3 458 atoms)'),
  ('C01','slicing an operand that cannot be sliced','Slice accepted every operand type without an explicit case (struct, map, func, chan, interface, named bool ...): `st[1:2]` was emitted (2 700 atoms)'),
  ('C03','variable of a range over an integer','for k := range n gave k the underlying basic type when n has a named integer type (for k := range MyInt(3): builder int, Go MyInt) and int for an untyped rune constant (for k := range \'a\': Go rune); found when declared objects were added to the type oracle'),
+ ('C11','fewer than two variables no longer emits a nil node','for k := range udt / for _ := range udt / for k = range udt / for range udt over an enumerator whose Next() yields (key, value, ok) left a nil node in the generated assignment: WriteTo failed with ast.Walk: unexpected node type <nil> (scenarios enum/en2/define k, define _, assign kk, no variables)'),
+ ('C11','all blank is emitted with = instead of :=','ForRange("_") / ForRange("_", "_") over an iterator-function enumerator (and over slices, maps, channels, integers) emitted for _ := range x, which Go rejects: no new variables on left side of := (scenarios enum/enf1/define _, enum/enf2/define _,_)'),
  ('C01','index expressions check the index operand','Index/IndexRef emitted a[i] without checking i: string or float index into a slice, index not assignable to the map key type, negative or fractional constant index (3 000 atoms)'),
 ]
 lines=open('/verif/KNOWN_FINDINGS.txt').read().splitlines()
